@@ -88,7 +88,8 @@ TABLE = {
             "Symbolic execution of array_repr/array_str/__str__/__repr__ with symbolic integer-like coefficients (so 0, 1, -1, negative leading terms are solver-chosen cases) under the 8 display_* "
             "boolean settings x alternative exponent/multiply signs; an independent recursive-descent reader evaluates the produced text over the exact model and must obtain the polynomial; "
             "printed term order must be the selected monomial order.",
-            E1_NOTE + " S5: str(Sym) = sign + token; float/complex/bool number formatting, suppress_small and to_sympy are outside.", E1_TECH),
+            E1_NOTE + " S5: str(Sym) = sign + token. to_sympy (0-d, default display options) is executed symbolically with tokens that evaluate to sympy symbols; the round trip "
+            "polynomial(to_sympy(p)) only in native runs. Float/complex/bool number formatting and suppress_small are outside.", E1_TECH),
     "C14": ("model_checking", "E3 CrossHair",
             "CrossHair (z3) executes numpoly/option.py symbolically, unmodified: op codes, payloads and the prior option state of a call history of depth 3 (quick) / 3-5 (thorough) over 7 "
             "operation kinds are symbolic; after every step get_options() must equal a stack model and get_options(defaults=True) the shipped defaults. Only 'Confirmed over all paths' counts; "
